@@ -90,6 +90,9 @@ REQUESTS = [
      [[], ["u1.friends:agen"], ["u2.name"]], None),
     ("defer_in_fragment_scope", '{ me { ...F(inc: true) other: best { ...F } } } fragment F($inc: Boolean = false) on User { id ... @defer(label: "d", if: $inc) { name nn @skip(if: $inc) } }', {},
      [[], ["u1.name"]], None),
+    # a stream inside the items of a stream, all items healthy: completed items wait in the outer queue with started nested producers
+    ("stream_in_stream", '{ me { friends @stream(initialCount: 0, label: "o") { id friends @stream(initialCount: 0, label: "i") { id } } } }', {},
+     [["u2.friends:agen"], ["u2.friends:aiter"]], None),
     ("deep", '{ me { best { ... @defer(label: "a") { name friends @stream(label: "s") { id ... @defer(label: "c") { nn } } } } } }', {"s": "a"},
      [["u2.name", "u3.nn"], ["u2.friends:agen"]], None),
 ]
